@@ -80,6 +80,10 @@ struct Task : tulz::Runnable {
         vs_cell_add(CELL_DESTROYED, 1);
     }
 };
+enum { CELL_GATE = 40, CELL_GATE_RAN = 41 };
+int pred_gate(void *) { return vs_cell_get(CELL_GATE) != 0; }
+int pred_gate_ran(void *) { return vs_cell_get(CELL_GATE_RAN) != 0; }
+struct GateTask : tulz::Runnable { void run() override { vs_block_until(pred_gate, nullptr); } ~GateTask() override { vs_cell_set(CELL_GATE_RAN, 1); } };
 int task_id_of(tulz::Runnable *r) { auto t = dynamic_cast<Task *>(r); return t ? t->id : -1; }
 
 // a task given to the template start(): the pool wraps a COPY of the functor in its own Runnable; the task counts as destroyed
@@ -115,6 +119,7 @@ struct Spec {
     int spurious = 0;           // spurious wake-ups of waiting workers the scheduler may generate per execution (each costs 1 from the bound)
     bool single = false;        // a program too large to enumerate: only its default schedule is executed
     std::string label;          // short name for long scripts
+    int second_pool = 0;        // another ThreadPool is alive during the whole script, its single worker busy with a task that ends after the script (1) or idle after one task (2): the two pools share nothing
 };
 
 struct TaskInfo { int submit = -1, enter = -1, exit = -1, destroy = -1, enters = 0, destroys = 0, run_tid = -1; bool must_run = false; };
@@ -166,6 +171,13 @@ void run(const Spec &s) {
     std::vector<bool> must_run(MAXTASK, false);
     std::vector<int> stop_returns;                // log positions at which a stop() returned
     auto logpos = [] { int n; vs_log(&n); return n; };
+    std::unique_ptr<tulz::ThreadPool> other; int log_start = 0;
+    if (s.second_pool) {
+        vs_cell_set(CELL_GATE, s.second_pool == 2); vs_cell_set(CELL_GATE_RAN, 0);
+        other = std::make_unique<tulz::ThreadPool>(); other->setMaxThreadCount(1); other->start(new GateTask);
+        if (s.second_pool == 2) vs_block_until(pred_gate_ran, nullptr);      // its worker has finished the task and idles
+        log_start = logpos();
+    }
 
     for (char c : s.script) {
         vs_event(EV_OP, c, 0);
@@ -224,7 +236,7 @@ void run(const Spec &s) {
     std::vector<TaskInfo> ti(submitted);
     std::vector<int> run_order;
     int created_since_stop = 0; size_t stop_i = 0;
-    for (int i = 0; i < n; i++) {
+    for (int i = log_start; i < n; i++) {
         const vs_ev &e = ev[i];
         while (stop_i < stop_returns.size() && i >= stop_returns[stop_i]) { created_since_stop = 0; stop_i++; }
         if (e.kind == VS_EV_CREATE) {
@@ -258,6 +270,7 @@ void run(const Spec &s) {
         }
     }
     g_pool = nullptr;
+    if (other) { vs_cell_set(CELL_GATE, 1); other->stop(); if (other->getThreadCount() != 0) vs_fail("the second pool reports %d threads after its stop()", other->getThreadCount()); }
 }
 
 std::string ev_name(const vs_ev &e) {
@@ -276,7 +289,7 @@ std::string ev_name(const vs_ev &e) {
 void add(VSuite &suite, Spec s, int bound, const std::string &flavour) {
     if (s.stateful && !kKnownLayout) return;      // the stateful pass needs the complete state of the pool
     VProgram p;
-    p.name = (s.label.empty() ? s.script : s.label) + "-max" + std::to_string(s.maxThreads) + (s.expiry >= 0 ? "-expiry" + std::to_string(s.expiry) : "") + (s.spurious ? "+spurious" : "") + (s.create_faults ? "+nothread" : "") + (s.stateful ? "@all" : "");
+    p.name = (s.label.empty() ? s.script : s.label) + "-max" + std::to_string(s.maxThreads) + (s.expiry >= 0 ? "-expiry" + std::to_string(s.expiry) : "") + (s.spurious ? "+spurious" : "") + (s.create_faults ? "+nothread" : "") + (s.second_pool == 1 ? "+2pools" : s.second_pool == 2 ? "+idlepool" : "") + (s.stateful ? "@all" : "");
     p.spurious = s.spurious; p.stateful = s.stateful; p.create_faults = s.create_faults;
     p.describe = "owner script " + s.script + " (S start task, F start a functor through the template start(), L the same with a named functor that dies right after the call, C clear, X stop, W wait until all submitted tasks are destroyed, U update, A advance the clock past the expiry timeout, G getters), maxThreadCount=" +
                  std::to_string(s.maxThreads) + ", expiryTimeout=" + std::to_string(s.expiry) + "; every task has a scheduling point inside run()" + (s.spurious ? "; one spurious wake-up of a waiting worker may happen anywhere (costs 1 like a preemption)" : "") +
@@ -332,6 +345,8 @@ bool provider(const std::string &prop, const std::string &tier, const std::strin
         { Spec s = base; s.script = std::string(33, 'S') + "C" + std::string(18, 'S') + "WX"; s.label = "Sx33,C,Sx18,W,X"; s.maxThreads = 2; s.single = true; add(suite, s, 0, flavour); }
         { Spec s = base; s.script = std::string(40, 'S') + "X"; s.label = "Sx40,X"; s.maxThreads = 2; s.single = true; add(suite, s, 0, flavour); }
     }
+    // ---- a second pool alive at the same time (anything the pools might share - a static queue, counter or condition variable - shows as a stuck stop() or a stolen task)
+    for (const char *sc : {"SX", "SSWX", "SCSWX", "SXSWX"}) for (int mt : {1, 2}) for (int kind : {1, 2}) { Spec s = base; s.script = sc; s.maxThreads = mt; s.second_pool = kind; add(suite, s, 2, flavour); }
     // ---- stateful pass: ALL schedules of these scripts
     if (flavour == "plain" || flavour == "hooked") {
         for (int mt : {1, 2}) for (const char *sc : {"SWX", "SX", "SSWX", "SSX", "SCSWX", "SXSWX", "SSCX", "SWSWX", "SWXX"}) { Spec s = base; s.script = sc; s.maxThreads = mt; s.stateful = true; add(suite, s, 0, flavour); }
